@@ -31,7 +31,7 @@ const (
 	hangWatchdog = 10 * time.Second
 	// optionalCloseWait bounds how long the harness waits for the close notification of a
 	// session that never got configured (the statement allows it not to fire at all).
-	optionalCloseWait = time.Second
+	optionalCloseWait = 300 * time.Millisecond
 	// activeBound bounds "probes reach the plugin (after activation)".
 	activeBound = 5 * time.Second
 )
